@@ -62,10 +62,16 @@ pub fn line(rng: &mut Rng) -> Vec<u8> {
 
 /// mostly valid lists (so that parsing succeeds and the views are exercised)
 pub fn good_line(rng: &mut Rng) -> Vec<u8> {
-    let dir = |rng: &mut Rng| -> Vec<u8> { match rng.below(6) { 0 => b"/usr/pkg".to_vec(), 1 => b"/opt/".to_vec(), 2 => vec![b'/', 0xe9], 3 => vec![b'/', b'c', 0xe9, b'/'], 4 => "/d\u{e9}/".as_bytes().to_vec(), _ => b"rel/dir".to_vec() } };
+    let dir = |rng: &mut Rng| -> Vec<u8> { if rng.chance(1, 80) { let mut d = b"/opt/".to_vec(); d.extend(std::iter::repeat(b'd').take(threshold(rng, 5000))); return d; } match rng.below(6) { 0 => b"/usr/pkg".to_vec(), 1 => b"/opt/".to_vec(), 2 => vec![b'/', 0xe9], 3 => vec![b'/', b'c', 0xe9, b'/'], 4 => "/d\u{e9}/".as_bytes().to_vec(), _ => b"rel/dir".to_vec() } };
     match rng.below(16) {
+        // (scale: now and then a path longer than a 1 KiB / 4 KiB path buffer, in a list that parses)
         0..=4 => { let mut f: Vec<u8> = rng.pick_str(&["bin/a", "b", "man/man1/x.1", "lib/\u{e9}.so", "c"]).as_bytes().to_vec(); if rng.chance(1, 8) { f.push(0xf8); }
-                   let mut f = crate::dict::dictify_bytes(rng, &f, 25); f.retain(|c| *c != b'\n'); f }
+                   if rng.chance(1, 100) { let k = threshold(rng, 5000); f = b"share/".to_vec(); f.extend(std::iter::repeat(b'g').take(k)); }
+                   // (a literal in or as the file name - but not one that turns the line into a command or a
+                   // blank line: a "good" list of a thousand lines has to stay one that parses)
+                   let orig = f.clone();
+                   let mut f = crate::dict::dictify_bytes(rng, &f, 25); f.retain(|c| *c != b'\n');
+                   if f.first() == Some(&b'@') || f.iter().all(|c| (*c as char).is_whitespace()) { orig } else { f } }
         5..=6 => b"@ignore".to_vec(),
         7..=8 => { let mut l = b"@cwd ".to_vec(); l.extend_from_slice(&dir(rng)); l }
         9 => b"@exec echo %F".to_vec(),
